@@ -83,6 +83,7 @@ type vWorld struct {
 	skipStorageCheck bool
 	poolSize  int
 	curOp     string
+	armedClock bool // clock readings are symbolic (after the pre-state has been built)
 	faultOnly string // restrict faults to operations with this name
 	parseFailOdd bool // certificates whose first byte is odd do not parse (names tile)
 
@@ -110,6 +111,11 @@ func newWorld(faults, crashes int) *vWorld {
 }
 
 func (w *vWorld) now() int64 {
+	if !w.armedClock {
+		// the pre-state is built under a concrete, progressing clock
+		w.lastClock += 1000
+		return w.lastClock
+	}
 	t := verifNondetInt64("clock")
 	verifAssume(t >= 0 && t < 1<<62)
 	if w.clockMode == 1 {
@@ -545,16 +551,20 @@ func (w *vWorld) auditPrefix() {
 		return
 	}
 	hashes := make([][32]byte, len(leaves))
+	idxOK := true
 	for i, e := range leaves {
-		verifAssert(e.LeafIndex == int64(i), "leaf i carries index i")
+		idxOK = verifAnd(idxOK, e.LeafIndex == int64(i))
 		hashes[i] = refLeafHash(e)
 	}
+	verifAssert(idxOK, "leaf i carries index i")
 	check := func(c vCheckpoint, which string) {
 		root := refMTH(hashes[:c.n])
 		verifAssert(root == [32]byte(c.hash), which+" checkpoint root is not the Merkle tree hash of the first N leaves")
+		tsOK := true
 		for i := int64(0); i < c.n; i++ {
-			verifAssert(leaves[i].Timestamp <= c.time, "a leaf carries a timestamp later than a tree head covering it")
+			tsOK = verifAnd(tsOK, leaves[i].Timestamp <= c.time)
 		}
+		verifAssert(tsOK, "a leaf carries a timestamp later than a tree head covering it")
 	}
 	for _, c := range w.lockHist {
 		check(c, "committed")
@@ -946,6 +956,7 @@ func (w *vWorld) bootstrap(n0 int) (*Log, *vInstance) {
 		done += batch
 	}
 	w.clockMode = mode
+	w.armedClock = true
 	return l, inst
 }
 
@@ -1034,9 +1045,10 @@ func (w *vWorld) checkBacked(pub *vCheckpoint) {
 		return
 	}
 	hashes := make([][32]byte, n)
+	idxOK, tsOK := true, true
 	for i, e := range leaves {
-		verifAssert(e.LeafIndex == int64(i), "leaf i does not carry index i")
-		verifAssert(e.Timestamp <= pub.time, "a leaf is later than the published tree head")
+		idxOK = verifAnd(idxOK, e.LeafIndex == int64(i))
+		tsOK = verifAnd(tsOK, e.Timestamp <= pub.time)
 		hashes[i] = refLeafHash(e)
 		for _, fp := range e.ChainFingerprints {
 			o, ok := w.objects["issuer/"+hexString(fp[:])]
@@ -1046,6 +1058,8 @@ func (w *vWorld) checkBacked(pub *vCheckpoint) {
 			}
 		}
 	}
+	verifAssert(idxOK, "leaf i does not carry index i")
+	verifAssert(tsOK, "a leaf is later than the published tree head")
 	verifAssert(refMTH(hashes) == [32]byte(pub.hash), "the published root is not the Merkle tree hash of the stored leaves")
 	// data and names tiles: exact bytes
 	for start := int64(0); start < n; start += sunlight.TileWidth {
@@ -1095,11 +1109,13 @@ func (w *vWorld) checkBacked(pub *vCheckpoint) {
 				continue
 			}
 			verifAssert(len(got) >= int(width)*32, "a hash tile is too short")
-			for j := int64(0); j < width && len(got) >= int(width)*32; j++ {
-				want := subtreeHash(hashes, h, t*sunlight.TileWidth+j)
-				var have [32]byte
-				copy(have[:], got[j*32:j*32+32])
-				verifAssert(have == want, "a hash tile does not hold the tree's node hashes")
+			var want []byte
+			for j := int64(0); j < width; j++ {
+				sh := subtreeHash(hashes, h, t*sunlight.TileWidth+j)
+				want = append(want, sh[:]...)
+			}
+			if len(got) >= len(want) {
+				verifAssert(verifBytesEq(got[:len(want)], want), "a hash tile does not hold the tree's node hashes")
 			}
 		}
 	}
